@@ -114,8 +114,11 @@ impl World for AgentWorld {
             lines.extend(rec.log.lines().iter().cloned());
             lines.sort_by_key(|l| l.trim_start().split(' ').next().and_then(|n| n.parse::<u64>().ok()).unwrap_or(0));
         }
+        let mut violations = oracle::check(&rec);
+        violations.extend(oracle::check_persistence(&rec));
+        violations.extend(oracle::check_reporting(&rec));
         let mut out = Outcome {
-            violations: oracle::check(&rec),
+            violations,
             log_hash: log.hash(),
             log_lines: lines,
             steps: rec.steps,
@@ -130,7 +133,7 @@ impl World for AgentWorld {
         out.count("requests_failed", h.sent.iter().filter(|s| !s.ok).count() as u64);
         out.count("truth_events", rec.truth.iter().map(|t| t.len() as u64).sum());
         out.count("store_ops", rec.store_log.len() as u64);
-        out.count("fault.peer_frozen", rec.frozen_peers.len() as u64);
+        out.count("fault.peer_frozen", h.freezes.len() as u64);
         out.count("fault.peer_close_read", h.sent.iter().filter(|s| matches!(s.op, scenario::Op::CloseRead)).count() as u64);
         out.count("fault.peer_close_write", h.sent.iter().filter(|s| matches!(s.op, scenario::Op::CloseWrite)).count() as u64);
         out.count("fault.store_fault_fired", rec.store_fault_fired as u64);
@@ -162,7 +165,7 @@ impl World for AgentWorld {
         out.count("probe.synced_frames", h.frames.iter().filter(|f| f.kind == FrameKind::Synced).count() as u64);
         out.count("probe.lane_not_found", h.frames.iter().filter(|f| matches!(&f.kind, FrameKind::Unlinked(Some(b)) if b.as_slice() == b"@laneNotFound")).count() as u64);
         out.nontrivial = coalesced > 0
-            || !rec.frozen_peers.is_empty()
+            || !h.freezes.is_empty()
             || rec.crash_step.is_some()
             || rec.store_fault_fired
             || h.sent.iter().any(|s| !s.ok || matches!(s.op, scenario::Op::CloseRead | scenario::Op::CloseWrite))
